@@ -9,7 +9,7 @@ CONSTANTS
   SaleMonths = 2
   Unit = 1
   MonthTicks = 4
-  SaleChains = {1, 2}
+  SaleChains = {1, 2, 3}
   Contracts = {1, 2}
   MaxOps = 4
   MaxNow = 16
